@@ -1083,11 +1083,11 @@ Proof.
   repeat split; try congruence. eapply ans_suffix_trans; eassumption.
 Qed.
 Lemma uw_upd_deferred s x : same_uw s (upd_deferred s x).
-Proof. unfold same_uw; cbn; repeat split. apply ans_suffix_refl. Qed.
+Proof. unfold same_uw; cbn; repeat split. apply ans_suffix_eq; reflexivity. Qed.
 Lemma uw_upd_last s x : same_uw s (upd_last s x).
-Proof. unfold same_uw; cbn; repeat split. apply ans_suffix_refl. Qed.
+Proof. unfold same_uw; cbn; repeat split. apply ans_suffix_eq; reflexivity. Qed.
 Lemma uw_upd_last_bcast s x : same_uw s (upd_last_bcast s x).
-Proof. unfold same_uw; cbn; repeat split. apply ans_suffix_refl. Qed.
+Proof. unfold same_uw; cbn; repeat split. apply ans_suffix_eq; reflexivity. Qed.
 
 Lemma unsol_wait_fragment_frame cfg s resp from bc bytes d fid s' res o :
   unsol_wait_fragment cfg s resp from bc bytes d fid = (s', res, o) ->
@@ -1097,11 +1097,11 @@ Proof.
   - intros H; inversion H; subst. split; [apply uw_refl|]. intros C; contradiction.
   - destruct (write_error_response (upd_deferred s None) from bc sq) as [s1 o1] eqn:E.
     apply write_error_response_spec in E. destruct E as [E _].
-    intros H; inversion H; subst. split; [eauto using uw_trans, uw_upd_deferred, uw_of_sc|]. intros C; contradiction.
+    intros H; inversion H; subst. split; [apply uw_trans with (upd_deferred s None); [apply uw_upd_deferred|apply uw_of_sc; exact E]|]. intros C; contradiction.
   - destruct (classify s bc bytes ctl fn obj) as [iin2|hdrs rh|rsp hdrs rh|hdrs|last|m|q|q].
     + destruct (write_solicited (upd_deferred s None) from (empty_solicited (ctl_seq ctl) iin2)) as [[s1 r1] o1] eqn:E.
       apply write_solicited_spec in E. destruct E as [E _].
-      intros H; inversion H; subst. split; [eauto using uw_trans, uw_upd_deferred, uw_of_sc|]. intros C; contradiction.
+      intros H; inversion H; subst. split; [apply uw_trans with (upd_deferred s None); [apply uw_upd_deferred|apply uw_of_sc; exact E]|]. intros C; contradiction.
     + intros H; inversion H; subst. split; [apply uw_upd_deferred|]. intros C; contradiction.
     + intros H; inversion H; subst. split; [apply uw_upd_deferred|]. intros C; contradiction.
     + destruct (handle_non_read cfg (upd_deferred s None) fn (ctl_seq ctl) fid bytes hdrs) as [[s1 r] o1] eqn:E.
@@ -1111,15 +1111,18 @@ Proof.
       * destruct (write_solicited s1 from r0) as [[s2 r1] o2] eqn:E2.
         apply write_solicited_spec in E2. destruct E2 as [E2 _].
         intros H; inversion H; subst. split.
-        -- eauto 6 using uw_trans, uw_upd_deferred, uw_of_sc, uw_upd_last.
+        -- apply uw_trans with (upd_deferred s None); [apply uw_upd_deferred|].
+           apply uw_trans with s1; [apply uw_of_sc; exact E1|].
+           apply uw_trans with s2; [apply uw_of_sc; exact E2|apply uw_upd_last].
         -- intros _. right. cbn. destruct E2 as (_ & _ & _ & _ & _ & E2 & _). congruence.
       * intros H; inversion H; subst. split.
-        -- eauto 6 using uw_trans, uw_upd_deferred, uw_of_sc, uw_upd_last.
+        -- apply uw_trans with (upd_deferred s None); [apply uw_upd_deferred|].
+           apply uw_trans with s1; [apply uw_of_sc; exact E1|apply uw_upd_last].
         -- intros _. right. cbn. exact Hd1.
     + intros H; inversion H; subst. split; [apply uw_upd_deferred|]. intros C; contradiction.
     + destruct (process_broadcast cfg (upd_deferred s None) m fid ctl fn bytes obj) as [s1 o1] eqn:E.
       apply process_broadcast_spec in E. destruct E as [E _].
-      intros H; inversion H; subst. split; [eauto using uw_trans, uw_upd_deferred, uw_of_sc|]. intros C; contradiction.
+      intros H; inversion H; subst. split; [apply uw_trans with (upd_deferred s None); [apply uw_upd_deferred|apply uw_of_sc; exact E]|]. intros C; contradiction.
     + intros H. split.
       * destruct (s_last_bcast s) as [[]|]; inversion H; subst; auto using uw_refl, uw_upd_last_bcast.
       * inversion H; subst. intros C; contradiction.
@@ -1145,11 +1148,11 @@ Proof.
   repeat split; try congruence. eapply ans_suffix_trans; eassumption.
 Qed.
 Lemma cu_upd_control s x : same_cu s (upd_control s x).
-Proof. unfold same_cu; cbn; repeat split. apply ans_suffix_refl. Qed.
+Proof. unfold same_cu; cbn; repeat split. apply ans_suffix_eq; reflexivity. Qed.
 Lemma cu_upd_unsol_seq s x : same_cu s (upd_unsol_seq s x).
-Proof. unfold same_cu; cbn; repeat split. apply ans_suffix_refl. Qed.
+Proof. unfold same_cu; cbn; repeat split. apply ans_suffix_eq; reflexivity. Qed.
 Lemma cu_upd_unsol_buf s x : same_cu s (upd_unsol_buf s x).
-Proof. unfold same_cu; cbn; repeat split. apply ans_suffix_refl. Qed.
+Proof. unfold same_cu; cbn; repeat split. apply ans_suffix_eq; reflexivity. Qed.
 
 Lemma start_unsol_spec cfg s r is_null s' o :
   start_unsol cfg s r is_null = (s', o) ->
@@ -1161,7 +1164,7 @@ Lemma start_unsol_spec cfg s r is_null s' o :
 Proof.
   unfold start_unsol. destruct (write_unsolicited cfg s r) as [[s1 r1] o1] eqn:E.
   apply write_unsolicited_spec in E. destruct E as (E1 & (pre & E2 & E3) & E4 & E5 & E6).
-  intros H; inversion H; subst. exists s1, r1, pre. repeat split; try assumption.
+  intros H; inversion H; subst. exists s1, r1, pre. split; [exact E1|]. repeat split; try assumption.
   rewrite <- app_assoc. reflexivity.
 Qed.
 
@@ -1176,7 +1179,7 @@ Proof.
   { destruct (start_unsol cfg (upd_unsol_seq s (seq16_next (s_unsol_seq s))) (unsol_header (s_unsol_seq s) 0) true) as [s2 o2] eqn:E.
     apply start_unsol_spec in E. destruct E as (s1 & r1 & pre & E1 & _ & _ & _ & E2 & _).
     intros H; inversion H; subst. split; [reflexivity|]. split.
-    - eauto using cu_trans, cu_upd_unsol_seq, cu_of_sc, cu_upd_control.
+    - eapply cu_trans; [apply cu_upd_unsol_seq|]. eapply cu_trans; [apply cu_of_sc; exact E1|apply cu_upd_control].
     - right. cbn. eauto. }
   destruct (negb match deadline with Some t => (t <=? s_now s)%Z | None => true end).
   { intros H; inversion H; subst. split; [reflexivity|]. split; [apply cu_refl|left; reflexivity]. }
@@ -1190,7 +1193,8 @@ Proof.
   match goal with |- context [start_unsol cfg ?a ?b ?c] => destruct (start_unsol cfg a b c) as [s3 o3] eqn:E end.
   apply start_unsol_spec in E. destruct E as (s2 & r1 & pre & E1 & _ & _ & _ & E2 & _).
   intros H; inversion H; subst. split; [reflexivity|]. split.
-  - eauto 8 using cu_trans, cu_upd_unsol_seq, cu_upd_unsol_buf, cu_of_sc, cu_upd_control.
+  - eapply cu_trans; [apply cu_of_sc; exact E0|]. eapply cu_trans; [apply cu_upd_unsol_seq|].
+    eapply cu_trans; [apply cu_upd_unsol_buf|]. eapply cu_trans; [apply cu_of_sc; exact E1|apply cu_upd_control].
   - right. cbn. eauto.
 Qed.
 
@@ -1210,12 +1214,12 @@ Proof. unfold handle_deferred. intros H. rewrite H. reflexivity. Qed.
    with the recorded sequence number), clears it, stores a wake-up permit *)
 Lemma handle_deferred_some cfg s ns d s' o :
   s_deferred s = Some d -> handle_deferred cfg s ns = (s', o) ->
-  exists s3 r r' pre se',
+  exists s3 r r' pre post se',
     r_fn r = fn_response /\ (exists fin con, r_ctl r = ctl_byte true fin con false (df_seq d)) /\
     (exists c e b, (r_size r = 4 + length b)%nat /\ (In (AWrite c e b) (s_answers s) \/ b = [])) /\
     sent_of r r' /\
-    o = pre ++ OTx (df_from d) (response_bytes r' (s_sol_buf s3)) :: match s_control s' with CSolWait x _ _ => [OInfo (IEnterSolWait (se_ecsn x))] | _ => [] end /\
-    Forall no_tx pre /\
+    o = pre ++ OTx (df_from d) (response_bytes r' (s_sol_buf s3)) :: post /\
+    Forall no_tx pre /\ Forall no_tx post /\
     s_last s' = mk_last (df_seq d) (df_bytes d) (Some r') se' /\
     s_deferred s' = None /\ s_pending s' = s_pending s /\ s_notify s' = true /\
     s_unsol_seq s' = s_unsol_seq s /\ s_unsol_buf s' = s_unsol_buf s /\ s_unsol s' = s_unsol s /\
@@ -1232,7 +1236,8 @@ Proof.
   set (se' := match se with None => if ctl_con (r_ctl r') then Some {| se_ecsn := ctl_seq (r_ctl r'); se_fin := true |} else None | x => x end).
   assert (Hsuf : ans_suffix s s3).
   { apply ans_suffix_trans with (upd_notify (upd_deferred s None) true); [apply ans_suffix_eq; reflexivity|].
-    eauto using ans_suffix_trans, sc_ans. }
+    eapply ans_suffix_trans; [apply sc_ans; exact A1|].
+    eapply ans_suffix_trans; [apply sc_ans; exact B1|apply sc_ans; exact C1]. }
   assert (HIn : In (AWrite c e b) (s_answers s) \/ b = []).
   { destruct B6 as [[rest B6]|B6]; [left|right; exact B6].
     destruct A1 as (_ & _ & _ & _ & _ & _ & _ & _ & _ & _ & _ & _ & _ & [p Hp]). cbn in Hp.
@@ -1240,15 +1245,68 @@ Proof.
   pose proof (sc_trans _ _ _ (sc_trans _ _ _ A1 B1) C1) as S13.
   destruct S13 as (S1 & S2 & S3 & S4 & S5 & S6 & S7 & S8 & S9 & S10 & _). cbn in S1, S2, S3, S4, S5, S6, S7, S8, S9, S10.
   destruct se' as [x|] eqn:Ese; intros H; inversion H; subst; clear H.
-  - exists s3, r, r', (o1 ++ o2 ++ pre), se. split; [exact B3|]. split; [eauto|]. split; [eauto|].
-    split; [repeat split; assumption|]. cbn [s_control upd_control].
-    split; [rewrite <- !app_assoc; reflexivity|]. split; [notx2|].
+  - exists s3, r, r', (o1 ++ o2 ++ pre), [OInfo (IEnterSolWait (se_ecsn x))], se. split; [exact B3|]. split; [eauto|]. split; [eauto|].
+    split; [repeat split; assumption|].
+    split; [rewrite <- !app_assoc; reflexivity|]. split; [notx2|]. split; [notx2|].
     cbn. repeat split; try assumption. right. exists x. reflexivity.
-  - exists s3, r, r', (o1 ++ o2 ++ pre), se. split; [exact B3|]. split; [eauto|]. split; [eauto|].
-    split; [repeat split; assumption|]. cbn [s_control upd_last]. rewrite S2. cbn [s_control upd_notify upd_deferred].
-    split.
-    { (* control is the one of s: if it was a solicited wait the output shape differs *)
-      rewrite <- !app_assoc. cbn [app].
-      destruct (s_control s) eqn:Ec; try reflexivity. admit. }
-    split; [notx2|]. cbn. repeat split; try assumption. left. reflexivity.
-Abort.
+  - exists s3, r, r', (o1 ++ o2 ++ pre), [], se. split; [exact B3|]. split; [eauto|]. split; [eauto|].
+    split; [repeat split; assumption|].
+    split; [rewrite <- !app_assoc; reflexivity|]. split; [notx2|]. split; [notx2|].
+    cbn. repeat split; try assumption. left. exact S2.
+Qed.
+
+(* ---------- sizes of fresh responses ------------------------------------------------------------- *)
+
+Lemma handle_controls_size cfg s fn seq fid bytes hdrs s1 r o :
+  handle_controls cfg s fn seq fid bytes hdrs = (s1, Some r, o) ->
+  (r_size r <= 4 \/ r_size r <= o_sol_tx cfg)%nat.
+Proof.
+  unfold handle_controls. destruct (negb (all_controls hdrs)).
+  { destruct (fn =? fn_direct_operate_nr); intros H; inversion H; subst. left. cbn. lia. }
+  destruct (fn =? fn_direct_operate_nr).
+  { destruct (noack_headers s cfg 0 false hdrs) as [cbs started]. intros H; inversion H. }
+  assert (Hsz : forall (echo : list N) st, (length echo <= o_sol_tx cfg - 4)%nat ->
+                 (r_size (control_response seq st (length echo)) <= 4 \/
+                  r_size (control_response seq st (length echo)) <= o_sol_tx cfg)%nat).
+  { intros echo st Hl. cbn [control_response r_size]. lia. }
+  destruct (fn =? fn_select).
+  { destruct (ctl_headers s cfg (o_sol_tx cfg - 4) CmSelect [] 0 false hdrs) as [[[[echo ok] cbs] st] started] eqn:E.
+    apply ctl_headers_length in E. intros H; inversion H; subst. apply Hsz. exact E. }
+  destruct (fn =? fn_direct_operate).
+  { destruct (ctl_headers s cfg (o_sol_tx cfg - 4) (CmOperate OpDo) [] 0 false hdrs) as [[[[echo ok] cbs] st] started] eqn:E.
+    apply ctl_headers_length in E. intros H; inversion H; subst. apply Hsz. exact E. }
+  match goal with |- context [match ?v with Some _ => _ | None => _ end = _] => destruct v as [status|] end.
+  - destruct (ctl_headers s cfg (o_sol_tx cfg - 4) (CmStatus status) [] 0 false hdrs) as [[[[echo ok] cbs] st] started] eqn:E.
+    apply ctl_headers_length in E. intros H; inversion H; subst. apply Hsz. exact E.
+  - destruct (ctl_headers s cfg (o_sol_tx cfg - 4) (CmOperate OpSbo) [] 0 false hdrs) as [[[[echo ok] cbs] st] started] eqn:E.
+    apply ctl_headers_length in E. intros H; inversion H; subst. apply Hsz. exact E.
+Qed.
+
+Lemma handle_non_read_size cfg s fn seq fid bytes hdrs s1 r o :
+  handle_non_read cfg s fn seq fid bytes hdrs = (s1, Some r, o) ->
+  (r_size r <= 10 \/ r_size r <= o_sol_tx cfg)%nat.
+Proof.
+  rewrite handle_non_read_eq. destruct (hnr_body cfg s fn seq fid bytes hdrs) as [[s' r'] o'] eqn:E.
+  destruct r' as [r'|]; intros H; inversion H; subst; clear H. cbn [with_iin2 r_size].
+  revert E. unfold hnr_body.
+  repeat match goal with |- (if ?c then _ else _) = _ -> _ => destruct c end.
+  - destruct (handle_write_headers cfg s hdrs) as [[s2 v] o2]. intros H; inversion H; subst. left; cbn; lia.
+  - intros H; inversion H; subst. left; cbn; lia.
+  - intros H; inversion H; subst. left; cbn; lia.
+  - destruct (restart_response seq s (o_cold cfg)) as [s2 r2] eqn:E. apply restart_response_spec in E.
+    destruct E as (_ & _ & _ & E). intros H; inversion H; subst. left. lia.
+  - destruct (restart_response seq s (o_warm cfg)) as [s2 r2] eqn:E. apply restart_response_spec in E.
+    destruct E as (_ & _ & _ & E). intros H; inversion H; subst. left. lia.
+  - intros H. apply handle_controls_size in H. lia.
+  - destruct (handle_freeze cfg 0 hdrs) as [v o2]. intros H; inversion H; subst. left; cbn; lia.
+  - destruct (handle_freeze cfg 0 hdrs) as [v o2]. intros H; inversion H.
+  - destruct (handle_freeze cfg 1 hdrs) as [v o2]. intros H; inversion H; subst. left; cbn; lia.
+  - destruct (handle_freeze cfg 1 hdrs) as [v o2]. intros H; inversion H.
+  - destruct (handle_freeze_at_time cfg None hdrs) as [v o2]. intros H; inversion H; subst. left; cbn; lia.
+  - destruct (handle_freeze_at_time cfg None hdrs) as [v o2]. intros H; inversion H.
+  - destruct (enable_disable cfg s true seq hdrs) as [s2 r2] eqn:E. apply enable_disable_spec in E.
+    destruct E as [_ [v E]]. intros H; inversion H; subst. left; cbn; lia.
+  - destruct (enable_disable cfg s false seq hdrs) as [s2 r2] eqn:E. apply enable_disable_spec in E.
+    destruct E as [_ [v E]]. intros H; inversion H; subst. left; cbn; lia.
+  - intros H; inversion H; subst. left; cbn; lia.
+Qed.
